@@ -29,7 +29,29 @@ def site_of(msg):
     return m[:120]
 
 
-def gen_docs(prop, seed, n, profile="F", replay=None, max_depth=3, features=None):
+def add_defaults(doc, r, p=0.35):
+    """Attach oracle-checked valid defaults to some optional scalar-ish properties."""
+    defs = doc.get("definitions", {})
+    ig = instgen.InstGen(r, defs, undeclared=False)
+    for s in list(walk_doc(doc)):
+        if not (isinstance(s, dict) and s.get("type") == "object" and isinstance(s.get("properties"), dict)):
+            continue
+        req = set(s.get("required", []))
+        for k, ps in s["properties"].items():
+            if k in req or not isinstance(ps, dict) or "$ref" in ps or r.random() > p:
+                continue
+            if ps.get("type") not in ("string", "integer", "boolean", "number", "array") and "enum" not in ps:
+                continue
+            try:
+                v = ig.inst(ps, 0, minimal=r.random() < 0.3)
+            except Exception:
+                continue
+            if pipeline.within_i64(v) and oracle.valid_against(ps, v, defs):
+                ps["default"] = v
+    return doc
+
+
+def gen_docs(prop, seed, n, profile="F", replay=None, max_depth=3, features=None, defaults=0.0):
     """List of (doc_id, doc, constructors_used)."""
     if replay:
         data = json.load(open(replay))
@@ -43,7 +65,23 @@ def gen_docs(prop, seed, n, profile="F", replay=None, max_depth=3, features=None
         r = util.rng(seed, prop, "doc", i)
         g = schemagen.SchemaGen(r, profile=profile, max_depth=max_depth, features=features)
         doc = g.document()
-        out.append(("d%04d" % i, doc, sorted(set(g.used))))
+        used = sorted(set(g.used))
+        if defaults and r.random() < defaults:
+            doc = add_defaults(doc, r)
+            used = used + ["defaults"]
+        out.append(("d%04d" % i, doc, used))
+    # recursive reference graphs (same builder as C07): optional / nullable / tuple / array / map cycles
+    if profile == "F":
+        from . import c07
+        for i in range(max(6, n // 6)):
+            r = util.rng(seed, prop, "graph", i)
+            k = r.randrange(1, 5)
+            nks = [r.choice(c07.NODE_KINDS) for _ in range(k)]
+            edges = [(r.randrange(k), r.randrange(k), r.choice(c07.EDGE_KINDS)) for _ in range(r.randrange(k, 2 * k + 2))]
+            doc, eff = c07.build_doc(k, nks, edges)
+            if any(isinstance(s_, dict) and s_.get("$ref") == "#/definitions/" + nm for nm, s_ in doc["definitions"].items()):
+                continue  # bare self-alias: recorded finding KF-C01-2
+            out.append(("r%04d" % i, doc, ["recursive_graph", "ref"]))
     # pinned corpus documents are always included
     cdir = os.path.join(util.VERIF, "corpus", prop)
     if os.path.isdir(cdir):
@@ -82,7 +120,8 @@ def count_ingest(rep, results):
 
 
 def faithful_run(prop, rep, docs, seed, n_inst=10, want_invalid=True, settings_fn=None,
-                 n_mut=8, probe_ops=("de",), name="main", extra_probe_fn=None, want_builder=False):
+                 n_mut=8, probe_ops=("de",), name="main", extra_probe_fn=None, want_builder=False,
+                 undeclared=True, string_mutants=0, alt_doc_fn=None, skip_mutants=()):
     """docs -> vgen -> stage-2 -> 'de' probes with oracle classification."""
     fr = FaithfulRun()
     cases = []
@@ -118,6 +157,7 @@ def faithful_run(prop, rep, docs, seed, n_inst=10, want_invalid=True, settings_f
         res = results[cid]
         doc, used = docmap[cid]
         orc = oracle.Oracle(doc)
+        alt = oracle.Oracle(alt_doc_fn(doc)) if alt_doc_fn else None
         defs = doc.get("definitions", {})
         info = run.info.get(cid, {})
         for dname, dschema in defs.items():
@@ -127,12 +167,16 @@ def faithful_run(prop, rep, docs, seed, n_inst=10, want_invalid=True, settings_f
                 rep.count("def_not_a_named_type")
                 continue
             r = util.rng(seed, prop, "inst", cid, dname)
-            ig = instgen.InstGen(r, defs)
+            ig = instgen.InstGen(r, defs, undeclared=undeclared)
             base = ig.instances(dschema, n_inst)
             cands = [("gen", None, v) for v in base]
             for v in base[: max(2, n_inst // 3)]:
                 for lab, path, m in instgen.mutants(v, r, limit=n_mut):
-                    cands.append((lab, path, m))
+                    if lab not in skip_mutants:
+                        cands.append((lab, path, m))
+                if string_mutants:
+                    for lab, path, m in instgen.string_mutants(v, r, limit=string_mutants):
+                        cands.append((lab, path, m))
             seen = set()
             sshape = pipeline.schema_shape(dschema)
             for lab, path, v in cands:
@@ -154,7 +198,15 @@ def faithful_run(prop, rep, docs, seed, n_inst=10, want_invalid=True, settings_f
                 if not valid and not want_invalid:
                     rep.count("oracle_invalid_skipped")
                     continue
+                valid_alt = None
+                if alt is not None:
+                    try:
+                        valid_alt = alt.valid(v, dname)
+                    except Exception:
+                        rep.count("oracle_error")
+                        continue
                 meta = {"doc": doc, "def": dname, "schema": dschema, "inst": v, "text": text, "valid": valid,
+                        "valid_alt": valid_alt,
                         "label": lab, "path": path, "type": tname, "used": used, "sshape": sshape,
                         "vshape": pipeline.value_shape(v),
                         "nontrivial": len(used) >= 2 and isinstance(v, (dict, list))}
@@ -210,3 +262,38 @@ PREDS = {}
 def pred(f):
     PREDS[f.__name__] = f
     return f
+
+
+@pred
+def corpus_doc(v, name=None, site_re=None):
+    """Finding identified by the pinned corpus document (case id k_<name>) and, optionally, the site."""
+    c = v.get("case") or {}
+    if c.get("id") != "k_" + re.sub(r"[^A-Za-z0-9]", "_", name or ""):
+        return False
+    return re.search(site_re, v.get("site") or "") is not None if site_re else True
+
+
+@pred
+def cause_is(v, cause=None):
+    """The check itself established the named mechanism for this violation (see the check's code)."""
+    return cause is not None and v.get("cause") == cause
+
+
+def boxed_option_fields(res):
+    """Wire names of struct fields typed Box<Option<..>> that carry no skip_serializing_if."""
+    out = set()
+    for f in res.get("facts") or []:
+        if f["kind"] == "struct":
+            for fld in f.get("fields") or []:
+                ty = norm(fld.get("ty") or "")
+                sd = fld.get("serde") or {}
+                if ty.startswith("::std::boxed::Box<::std::option::Option<") and "skip_serializing_if" not in sd:
+                    out.add(sd.get("rename") if isinstance(sd.get("rename"), str) else fld.get("ident"))
+        if f["kind"] == "enum":
+            for var in f.get("variants") or []:
+                for fld in var.get("fields") or []:
+                    ty = norm(fld.get("ty") or "")
+                    sd = fld.get("serde") or {}
+                    if ty.startswith("::std::boxed::Box<::std::option::Option<") and "skip_serializing_if" not in sd:
+                        out.add(sd.get("rename") if isinstance(sd.get("rename"), str) else fld.get("ident"))
+    return out
